@@ -11,10 +11,10 @@ Import ListNotations.
 Open Scope N_scope.
 
 (** After [prune m h]: the best chain is unchanged; a block loses body and supplement
-    (its state kind and its header stay) iff it is [pruned_by m h]: the best-chain block at
-    some height i < h such that the best-chain blocks at all heights i..h-1 exist and
-    still had their bodies (the walk down from h-1 stops at the first missing body);
-    every other record is untouched. *)
+    (its state kind and its header stay) iff it is [pruned_by m h]: with h' = min h
+    (tip height + 1), the best-chain block at some height i < h' such that the best-chain
+    blocks at all heights i..h'-1 still had their bodies (the walk down from h'-1 stops at
+    the first missing body); every other record is untouched. *)
 Theorem C19_prune_removes_only_bodies :
   ∀ U, WF U → ∀ m h, MInv U m →
     best (prune m h) = best m ∧
@@ -43,11 +43,31 @@ Theorem C19_best_index_is_height :
 Proof. exact best_at_ht. Qed.
 Print Assumptions C19_best_index_is_height.
 
-(** PruneBlocks(h) with h beyond tip height + 1 removes nothing (the loop breaks at once) *)
-Theorem C19_prune_beyond_tip_is_noop :
-  ∀ m h, N.of_nat (length (best m)) < h → prune m h = m.
-Proof. exact prune_beyond_tip_noop. Qed.
-Print Assumptions C19_prune_beyond_tip_is_noop.
+(** The seventh invariant (kept as its own predicate next to [MInv]): in every reachable
+    state the best-chain blocks that still have a body are contiguous from the tip — below
+    a best-chain block without body no best-chain block has one. *)
+Theorem C19_bodies_contig_inv :
+  ∀ U, WF U → ∀ ops, ops_pre U ops → bodies_contig U (mrun U ops).
+Proof. exact mrun_contig. Qed.
+Print Assumptions C19_bodies_contig_inv.
+
+(** PruneBlocks(h) with h beyond the tip is PruneBlocks(tip height + 1), and afterwards no
+    best-chain block has a body (every block whose body run reaches the tip loses it). *)
+Theorem C19_prune_beyond_tip_prunes_all :
+  ∀ U, WF U → ∀ m h, MInv U m → bodies_contig U m → N.of_nat (length (best m)) ≤ h →
+    prune m h = prune m (N.of_nat (length (best m))) ∧
+    ∀ x, x ∈ best m → has_body (prune m h) x = false.
+Proof. exact prune_beyond_tip_prunes_all. Qed.
+Print Assumptions C19_prune_beyond_tip_prunes_all.
+
+(** ... without the contiguity invariant: every best-chain block from which all blocks up
+    to the tip have bodies loses its body *)
+Theorem C19_prune_beyond_tip_prunes_run :
+  ∀ U, WF U → ∀ m h x, MInv U m → N.of_nat (length (best m)) ≤ h → x ∈ best m →
+    (∀ y, y ∈ best m → ht U x ≤ ht U y → has_body m y = true) →
+    has_body (prune m h) x = false.
+Proof. exact prune_all_run. Qed.
+Print Assumptions C19_prune_beyond_tip_prunes_run.
 
 Theorem C19_prune_idempotent : ∀ m h, prune (prune m h) h = prune m h.
 Proof. exact prune_idempotent. Qed.
@@ -67,6 +87,21 @@ Theorem C19_min_reorg_spec :
       (∀ z, head rest = Some z → has_body m z = false).
 Proof. exact min_reorg_spec. Qed.
 Print Assumptions C19_min_reorg_spec.
+
+(** MinReorgIndex is sound: in every reachable state every best-chain block strictly above
+    it has a body, so a reorg whose fork point is at or above it needs no pruned body. *)
+Theorem C19_min_reorg_sound :
+  ∀ U, WF U → ∀ ops, ops_pre U ops → ∀ x,
+    x ∈ best (mrun U ops) → ht U (min_reorg (mrun U ops)) < ht U x →
+    has_body (mrun U ops) x = true.
+Proof. exact min_reorg_sound_reachable. Qed.
+Print Assumptions C19_min_reorg_sound.
+
+Theorem C19_min_reorg_sound_inv :
+  ∀ U, WF U → ∀ m x, MInv U m → bodies_contig U m →
+    x ∈ best m → ht U (min_reorg m) < ht U x → has_body m x = true.
+Proof. exact min_reorg_sound. Qed.
+Print Assumptions C19_min_reorg_sound_inv.
 
 (** An AddBlocks whose reorg has to revert a block whose body is gone returns an error
     (never panics), notifies nobody, and leaves the best chain and the record of every
